@@ -135,13 +135,13 @@ func (versionStream) Generate(rng *rand.Rand, tier string, emit func(Case)) {
 	}
 	// present-but-empty annotation maps use no annotation feature
 	for _, where := range []int{-1, 0, 1} {
-		s := baseSpec(2)
-		if where < 0 {
-			s.Annotations = map[string]string{}
-		} else {
-			s.Devices[where].Annotations = map[string]string{}
+		// (the protocol does not distinguish an empty from an absent map: the flag re-creates it)
+		emit(Case{"op": "minver", "spec": specToProto(baseSpec(2)), "emptyann": where})
+		for _, v := range []string{"0.3.0", "0.5.0"} {
+			c := baseSpec(2)
+			c.Version = v
+			emit(Case{"op": "validver", "spec": specToProto(c), "emptyann": where})
 		}
-		emitSpec(s, true)
 	}
 	// a dot at every position of the class (the other character rule)
 	for _, kind := range []string{"vendor.com/.class", "vendor.com/cl.ass", "vendor.com/class.", "vendor.com/c.l.a", "vendor.com/.", "ven.dor/class", "vendor.com/cl-ass", "vendor.com/cl_ass"} {
@@ -257,6 +257,13 @@ func (versionStream) Execute(c Case) {
 	if s == nil {
 		obs["panic"] = true
 		return
+	}
+	if w, ok := c["emptyann"]; ok {
+		if i := kindIdx(w); i < 0 {
+			s.Annotations = map[string]string{}
+		} else if i < len(s.Devices) {
+			s.Devices[i].Annotations = map[string]string{}
+		}
 	}
 	switch c["op"] {
 	case "minver":
